@@ -12,6 +12,7 @@ logs, stream header) and through the real HTTP client/server pair (client-upload
 flow) are compared with their inline twins; (3) the recorded logs are validated by TLC against
 ExternalTrace and judged with External!Violated.
 """
+import contextlib
 import hashlib
 import io
 import os
@@ -31,7 +32,7 @@ import pyarrow as pa
 from pyarrow import ipc
 
 from vgi_rpc.log import Level
-from vgi_rpc.rpc import CallContext, OutputCollector, ProducerState, Stream
+from vgi_rpc.rpc import AnnotatedBatch, CallContext, ExchangeState, OutputCollector, ProducerState, Stream
 from vgi_rpc.utils import ArrowSerializableDataclass
 
 from drivers._fault_util import model_check, strset, validate_traces
@@ -59,7 +60,7 @@ META = {
             "that touch metadata only are outside the grammar (pyarrow schema equality ignores them).",
 }
 
-ALL_KINDS = ("unary", "collector", "header", "request")
+ALL_KINDS = ("unary", "collector", "header", "request", "initreq", "xinput", "xupload")
 ALL_LAYOUTS = ("D", "LD", "LLD", "LDL")
 ALL_CORS = ("none", "flip", "trunc", "subst", "subst_logs", "subst_exc", "nested_before", "nested_after", "nested_only", "extra", "zero",
             "schema")
@@ -78,6 +79,9 @@ class MemStorage:
         self.uploads: list[tuple[str, str | None, int]] = []
         self.n = 0
         self.on_upload = None       # hook(oid) called after every upload (end-to-end tampering)
+        self.flaky: set = set()     # object ids whose next request is answered with a transient 503
+        self.flaky_served = 0
+        self.on_flaky = None
 
     def _new(self) -> str:
         self.n += 1
@@ -118,6 +122,12 @@ class MemStorage:
         obj = self.objects.get(m.group(1)) if m else None
         if obj is None:
             return Reply(404, {}, b"", "Not Found")
+        if m.group(1) in self.flaky:
+            self.flaky.discard(m.group(1))
+            self.flaky_served += 1
+            if self.on_flaky is not None:
+                self.on_flaky()
+            return Reply(503, {"Retry-After": "0"}, b"busy", "Service Unavailable")
         data, enc = obj
         h = {"Accept-Ranges": "bytes"}
         if enc:
@@ -337,6 +347,13 @@ def rewrite_pointer(wire: bytes, psha: str, new_raw: bytes | None) -> bytes:
 
 
 # ---------------------------------------------------------------------------------------------- one case
+def _app_md(cm) -> dict:
+    """Application metadata of a batch: everything outside the framework's vgi_rpc.* keys."""
+    if cm is None:
+        return {}
+    return {k: v for k, v in cm.items() if not k.startswith(b"vgi_rpc.")}
+
+
 def _why(exc: BaseException) -> str:
     s = str(exc)
     if FORGED in s or FORGED in repr(getattr(exc, "args", "")):
@@ -422,7 +439,7 @@ def run_case(world: _World, case: dict, variant: int, rng: random.Random) -> tup
             if x == "L":
                 out.client_log(Level.INFO if j % 2 == 0 else Level.WARN, f"note {j} of {variant}", step=str(j))
             else:
-                out.emit(probe)
+                out.emit(probe, metadata={"app.tag": f"t{variant}", "app.unit": "rows"} if case["md"] else None)
         inline_logs = [(("INFO" if j % 2 == 0 else "WARN"), f"note {j} of {variant}", [("step", str(j))])
                        for j, x in enumerate(LAYOUT[case["layout"]]) if x == "L"]
         with ipc.new_stream(wire, schema) as w:
@@ -453,8 +470,13 @@ def run_case(world: _World, case: dict, variant: int, rng: random.Random) -> tup
         st.objects[oid][0] = new
         wire = rewrite_pointer(wire, psha, new_raw)
         log.append({"e": "tamper", "cor": effective["cor"], "psha": psha})
+        if case["flaky"]:
+            st.flaky.add(oid)
+            st.on_flaky = lambda: log.append({"e": "retry"})
 
     # -- consume
+    md_ok = True
+
     def on_log(m) -> None:
         got_logs.append(m)
         log.append({"e": "log", "forged": FORGED in m.message})
@@ -476,29 +498,43 @@ def run_case(world: _World, case: dict, variant: int, rng: random.Random) -> tup
                     break
                 raise MachineryError(f"second data batch on the wire: {more.batch.num_rows} rows")
             what = "D" if (ab.batch.equals(expected) and ab.batch.schema.equals(expected.schema)) else "O"
+            want_md = {b"app.tag": f"t{variant}".encode(), b"app.unit": b"rows"} if case["md"] else {}
+            md_ok = _app_md(ab.custom_metadata) == want_md
         logs_ok = _logs_key(got_logs) == [(a, b, c) for a, b, c in inline_logs]
-        log.append({"e": "deliver", "what": what, "logs": len(got_logs), "logs_ok": logs_ok})
+        log.append({"e": "deliver", "what": what, "logs": len(got_logs), "logs_ok": logs_ok, "md_ok": md_ok})
         err = None
     except MachineryError:
         raise
     except Exception as exc:  # noqa: BLE001 -- any failure is "not delivered"; the reason is conformance only
         log.append({"e": "reject", "why": _why(exc)})
         err = f"{type(exc).__name__}: {str(exc)[:200]}"
+    finally:
+        st.flaky.clear()
+        st.on_flaky = None
     return {"case": effective, "log": log}, {"level": "functions", "variant": variant, "size": size, "error": err,
                                             "requested_case": case}
 
 
-# ---------------------------------------------------------------------------------------------- end to end (pipe)
+# ---------------------------------------------------------------------------------------------- end to end
 OUT = pa.schema([pa.field("v", pa.binary()), pa.field("k", pa.int64())])
+IN = pa.schema([pa.field("v", pa.binary()), pa.field("k", pa.int64())])
+MAX_REQUEST = 2000          # advertised / enforced request cap of the HTTP leg: larger bodies take the upload-URL flow
 
 
 @dataclass
 class Prod(ProducerState):
-    blob: bytes
+    size: int           # the blob is regenerated from (size, seed): the state travels in HTTP state tokens
+    seed: int
     layout: str
+    md: bool
+    warm: int           # small cycles before the big one (the big one is then fetched by a continuation request)
     done: bool = False
 
     def produce(self, out: OutputCollector, ctx: CallContext) -> None:
+        if self.warm > 0:
+            self.warm -= 1
+            out.emit(pa.RecordBatch.from_arrays([pa.array([b"w"], pa.binary()), pa.array([0], pa.int64())], schema=OUT))
+            return
         if self.done:
             out.finish()
             return
@@ -507,8 +543,10 @@ class Prod(ProducerState):
             if x == "L":
                 out.client_log(Level.INFO if j % 2 == 0 else Level.WARN, f"note {j}", step=str(j))
             else:
-                out.emit(pa.RecordBatch.from_arrays([pa.array([self.blob], pa.binary()), pa.array([1], pa.int64())],
-                                                    schema=OUT))
+                blob = random.Random(self.seed).randbytes(self.size)
+                out.emit(pa.RecordBatch.from_arrays([pa.array([blob], pa.binary()), pa.array([1], pa.int64())],
+                                                    schema=OUT),
+                         metadata={"app.tag": "t", "app.unit": "rows"} if self.md else None)
 
 
 @dataclass
@@ -517,138 +555,117 @@ class Quiet(ProducerState):
         out.finish()
 
 
+SEEN: list = []             # what application code (method bodies / exchange steps) was handed, per run
+
+
+@dataclass
+class Echo(ExchangeState):
+    def exchange(self, input: AnnotatedBatch, out: OutputCollector, ctx: CallContext) -> None:
+        SEEN.append(("ex", input.batch.to_pydict()))
+        out.emit(pa.RecordBatch.from_arrays([pa.array([b"ok"], pa.binary()), pa.array([input.batch.num_rows], pa.int64())],
+                                            schema=OUT))
+
+
 class Svc(Protocol):
     def blob(self, size: int, seed: int) -> bytes: ...
-    def prod(self, size: int, seed: int, layout: str) -> Stream[ProducerState]: ...
+    def prod(self, size: int, seed: int, layout: str, md: bool, warm: int) -> Stream[ProducerState]: ...
     def head(self, size: int, seed: int) -> Stream[ProducerState, BigHeader]: ...
+    def ex(self) -> Stream[ExchangeState]: ...
+    def put_blob(self, payload: bytes, k: int) -> int: ...
+    def feed(self, payload: bytes, k: int) -> Stream[ProducerState]: ...
 
 
 class Impl:
     def blob(self, size: int, seed: int) -> bytes:
         return random.Random(seed).randbytes(size)
 
-    def prod(self, size: int, seed: int, layout: str) -> Stream[Prod]:
-        return Stream(output_schema=OUT, state=Prod(blob=random.Random(seed).randbytes(size), layout=layout))
+    def prod(self, size: int, seed: int, layout: str, md: bool, warm: int) -> Stream[Prod]:
+        return Stream(output_schema=OUT, state=Prod(size=size, seed=seed, layout=layout, md=md, warm=warm))
 
     def head(self, size: int, seed: int) -> Stream[Quiet, BigHeader]:
         return Stream(output_schema=OUT, state=Quiet(), header=BigHeader(blob=random.Random(seed).randbytes(size), n=seed))
 
+    def ex(self) -> Stream[Echo]:
+        return Stream(output_schema=OUT, state=Echo(), input_schema=IN)
 
-def _call(proxy, kind: str, layout: str, size: int, seed: int):
-    """One whole call; returns a comparable history of what the client got."""
+    def put_blob(self, payload: bytes, k: int) -> int:
+        SEEN.append(("put", payload, k))
+        return len(payload) + k
+
+    def feed(self, payload: bytes, k: int) -> Stream[Quiet]:
+        SEEN.append(("feed", payload, k))
+        return Stream(output_schema=OUT, state=Quiet())
+
+
+def _rows(sess, token_api: bool) -> list:
+    rows = []
+    if token_api:
+        while True:
+            ab, _tok = sess.next_with_token()
+            if ab is None:
+                break
+            rows.append((ab.batch.to_pydict(), _app_md(ab.custom_metadata)))
+    else:
+        for ab in sess:
+            rows.append((ab.batch.to_pydict(), _app_md(ab.custom_metadata)))
+    return rows
+
+
+def _call(proxy, case: dict, size: int, seed: int, flavour: dict, pointer=None):
+    """One whole call; returns a comparable history of what the caller / the implementation got."""
+    kind = case["kind"]
     if kind == "unary":
         return ("value", proxy.blob(size=size, seed=seed))
     if kind == "collector":
-        sess = proxy.prod(size=size, seed=seed, layout=layout)
-        rows = []
-        for ab in sess:
-            rows.append((ab.batch.schema.to_string(), ab.batch.to_pydict()))
-        return ("batches", rows)
-    sess = proxy.head(size=size, seed=seed)
-    h = sess.header
-    rows = [ab.batch.to_pydict() for ab in sess]
-    return ("header", (h.blob, h.n), rows)
-
-
-def run_e2e(world: _World, case: dict, variant: int, rng: random.Random) -> tuple[dict, dict]:
-    """The same case through a real server and client over the in-process pipe transport."""
-    from vgi_rpc.external import Compression, ServerExternalConfig
-    from vgi_rpc.rpc import serve_pipe
-
-    st = world.storage
-    kind, cor = case["kind"], case["cor"]
-    size, seed = [900, 4000][variant % 2], variant
-    inline_logs: list = []
-    with serve_pipe(Svc, Impl(), on_log=inline_logs.append) as p:
-        ref = _call(p, kind, case["layout"], size, seed)
-    # the payload's get_total_buffer_size(): measured on the inline twin
-    if kind == "unary":
-        psize = pa.RecordBatch.from_arrays([pa.array([ref[1]], pa.binary())], names=["result"]).get_total_buffer_size()
-    elif kind == "collector":
-        psize = pa.RecordBatch.from_arrays([pa.array([ref[1][0][1]["v"][0]], pa.binary()), pa.array([1], pa.int64())],
-                                           names=["v", "k"]).get_total_buffer_size()
-    else:
-        psize = BigHeader(blob=ref[1][0], n=ref[1][1])._serialize().get_total_buffer_size()
-    thr = {"zero": 0, "at": psize, "above": psize + 1}[case["thr"]]
-    comp = None if case["comp"] == "none" else Compression(algorithm=case["comp"])
-    cfg = ServerExternalConfig(storage=st, externalize_threshold_bytes=thr, compression=comp,
-                               fetch_config=world.fetch_cfgs[variant % 2], retry_delay_seconds=0.0)
-    n_before = len(st.uploads)
-    log: list[dict] = []
-    effective = dict(case)
-    state = {"raw": None}
-
-    def hook(oid: str) -> None:
-        stored, enc = st.objects[oid]
-        orig_raw = _decode(stored, enc)
-        new, new_raw = tamper(stored, enc, cor, variant, rng)
-        if cor in ("flip", "trunc") and new_raw is not None and new_raw == orig_raw:
-            effective["cor"] = "none"
-        st.objects[oid][0] = new
-
-    st.on_upload = hook if cor != "none" else None
-    got_logs: list = []
-    err = None
+        sess = proxy.prod(size=size, seed=seed, layout=case["layout"], md=case["md"], warm=flavour["warm"])
+        return ("batches", _rows(sess, flavour["token"]))
+    if kind == "header":
+        sess = proxy.head(size=size, seed=seed)
+        h = sess.header
+        return ("header", (h.blob, h.n), _rows(sess, False))
+    payload = random.Random(seed).randbytes(size)
+    if kind == "request":
+        return ("put", proxy.put_blob(payload=payload, k=seed))
+    if kind == "initreq":
+        sess = proxy.feed(payload=payload, k=seed)
+        return ("feed", _rows(sess, False))
+    # exchange input: handed over as data (inline / to be uploaded by the HTTP client) or as a ready-made pointer
+    data = pa.RecordBatch.from_arrays([pa.array([payload], pa.binary()), pa.array([seed], pa.int64())], schema=IN)
+    sess = proxy.ex()
     try:
-        with serve_pipe(Svc, Impl(), on_log=got_logs.append, external_location=cfg) as p:
-            got = _call(p, kind, case["layout"], size, seed)
-    except Exception as exc:  # noqa: BLE001
-        got = None
-        err = exc
+        if pointer is not None:
+            out = sess.exchange(AnnotatedBatch(batch=pointer[0], custom_metadata=pointer[1]))
+        else:
+            out = sess.exchange(AnnotatedBatch(batch=data))
+        return ("ex", out.batch.to_pydict())
     finally:
-        st.on_upload = None
-    ups = st.uploads[n_before:]
-    if len(ups) > 1:
-        raise MachineryError(f"end-to-end case produced {len(ups)} uploads: {case}")
-    log.append({"e": "route", "r": "external" if ups else "inline"})
-    if ups:
-        log.append({"e": "upload", "enc": ups[0][1] or "none"})
-        log.append({"e": "tamper", "cor": effective["cor"], "psha": "kept"})
-    log += [{"e": "log", "forged": FORGED in m.message} for m in got_logs]
-    if err is None:
-        log.append({"e": "deliver", "what": "D" if got == ref else "O", "logs": len(got_logs),
-                    "logs_ok": _logs_key(got_logs) == _logs_key(inline_logs)})
-    else:
-        log.append({"e": "reject", "why": _why(err)})
-    return {"case": effective, "log": log}, {"level": "serve_pipe", "variant": variant, "size": size,
-                                            "error": None if err is None else f"{type(err).__name__}: {str(err)[:200]}",
-                                            "requested_case": case}
+        with contextlib.suppress(Exception):
+            sess.close()
 
 
-# ---------------------------------------------------------------------------------------------- end to end (HTTP)
-class Up(Protocol):
-    def put_blob(self, payload: bytes, k: int) -> int: ...
-
-
-class UpImpl:
-    def __init__(self) -> None:
-        self.got: list = []
-
-    def put_blob(self, payload: bytes, k: int) -> int:
-        self.got.append((payload, k))
-        return len(payload) + k
-
-
-class _HttpLeg:
-    """Real HTTP client (httpx2 over WSGITransport) against the real WSGI app with an upload-URL provider: an
-    oversized request takes the 413 -> OPTIONS -> __upload_url__ -> PUT -> pointer-request path of
-    http/_client.py, the server resolves the pointer through fetch_url."""
-
-    MAX_REQUEST = 2000
+class _Legs:
+    """Connections of the end-to-end levels: in-process pipe, and the real HTTP client (httpx2 over WSGITransport)
+    against the real WSGI app with the upload-URL provider."""
 
     def __init__(self, world: _World) -> None:
+        self.world = world
+
+    @contextlib.contextmanager
+    def connect(self, level: str, cfg, on_log):
+        from vgi_rpc.rpc import RpcServer, serve_pipe
+
+        if level == "serve_pipe":
+            with serve_pipe(Svc, Impl(), on_log=on_log, external_location=cfg) as p:
+                yield p
+            return
         import httpx2
 
-        from vgi_rpc.external import ServerExternalConfig
-        from vgi_rpc.http import make_wsgi_app
-        from vgi_rpc.rpc import RpcServer
+        from vgi_rpc.external import ClientExternalConfig
+        from vgi_rpc.http import http_connect, make_wsgi_app
 
-        self.world, st = world, world.storage
-        self.impl = UpImpl()
-        scfg = ServerExternalConfig(storage=st, externalize_threshold_bytes=10**9, fetch_config=world.fetch_cfgs[0],
-                                    retry_delay_seconds=0.0)
-        app = make_wsgi_app(RpcServer(Up, self.impl, external_location=scfg), upload_url_provider=st,
-                            max_request_bytes=self.MAX_REQUEST, token_key=b"k" * 32)
+        st = self.world.storage
+        app = make_wsgi_app(RpcServer(Svc, Impl(), external_location=cfg), upload_url_provider=st,
+                            max_request_bytes=MAX_REQUEST, token_key=b"k" * 32)
 
         def store(req):
             if req.method == "PUT":
@@ -656,51 +673,137 @@ class _HttpLeg:
                 return httpx2.Response(200)
             return httpx2.Response(405)
 
-        self.client = httpx2.Client(base_url="http://rpc.test",
-                                    mounts={"all://store.test": httpx2.MockTransport(store),
-                                            "all://rpc.test": httpx2.WSGITransport(app=app)})
-
-    def close(self) -> None:
-        self.client.close()
-
-    def run(self, case: dict, variant: int, rng: random.Random) -> tuple[dict, dict]:
-        from vgi_rpc.external import ClientExternalConfig
-        from vgi_rpc.http import http_connect
-
-        st = self.world.storage
-        size = 300 if case["thr"] == "above" else [self.MAX_REQUEST + 1, 6000][variant % 2]
-        payload, k = rng.randbytes(size), variant
-        effective = dict(case)
-
-        def hook(oid: str) -> None:
-            stored, enc = st.objects[oid]
-            st.objects[oid][0] = tamper(stored, enc, case["cor"], variant, rng)[0]
-
-        st.on_upload = hook if case["cor"] != "none" else None
-        n_before, calls_before = len(st.uploads), len(self.impl.got)
-        err = None
+        client = httpx2.Client(base_url="http://rpc.test", mounts={"all://store.test": httpx2.MockTransport(store),
+                                                                   "all://rpc.test": httpx2.WSGITransport(app=app)})
         try:
-            with http_connect(Up, client=self.client, prefix="",
-                              external_location=ClientExternalConfig(fetch_config=self.world.fetch_cfgs[0]),
+            ccfg = None if cfg is None else ClientExternalConfig(fetch_config=self.world.fetch_cfgs[0],
+                                                                 retry_delay_seconds=0.0)
+            with http_connect(Svc, client=client, prefix="", on_log=on_log, external_location=ccfg,
                               compression_level=None) as p:
-                res = p.put_blob(payload=payload, k=k)
-        except Exception as exc:  # noqa: BLE001
-            err = exc
+                yield p
         finally:
-            st.on_upload = None
-        ups = st.uploads[n_before:]
-        handed = self.impl.got[calls_before:]
-        log = [{"e": "route", "r": "external" if ups else "inline"}]
-        if ups:
-            log += [{"e": "upload", "enc": "none"}, {"e": "tamper", "cor": case["cor"], "psha": "kept"}]
-        if handed:      # the implementation method ran: the payload reached application code
-            ok = err is None and handed == [(payload, k)] and res == len(payload) + k
-            log.append({"e": "deliver", "what": "D" if ok else "O", "logs": 0, "logs_ok": True})
+            client.close()
+
+
+def _psize(case: dict, size: int, seed: int) -> int:
+    """get_total_buffer_size() of the batch the threshold is compared with."""
+    blob = random.Random(seed).randbytes(size)
+    if case["kind"] == "unary":
+        return pa.RecordBatch.from_arrays([pa.array([blob], pa.binary())], names=["result"]).get_total_buffer_size()
+    if case["kind"] == "header":
+        return BigHeader(blob=blob, n=seed)._serialize().get_total_buffer_size()
+    return pa.RecordBatch.from_arrays([pa.array([blob], pa.binary()), pa.array([1], pa.int64())],
+                                      schema=OUT).get_total_buffer_size()
+
+
+E2E_KINDS = {"serve_pipe": ("unary", "collector", "header", "xinput"),
+             "http": ("unary", "collector", "header", "request", "initreq", "xupload")}
+
+
+def run_e2e(world: _World, legs: _Legs, case: dict, variant: int, rng: random.Random, level: str) -> tuple[dict, dict]:
+    """The case as one whole call through a real server and client (pipe or HTTP), compared with its inline twin."""
+    from vgi_rpc.external import Compression, ServerExternalConfig, make_external_location_batch
+
+    st = world.storage
+    kind, cor, psha = case["kind"], case["cor"], case["psha"]
+    to_server = kind in ("request", "initreq", "xupload", "xinput")
+    uploaded = kind in ("request", "initreq", "xupload")
+    seed = variant
+    if uploaded:        # the HTTP client externalises what does not fit MAX_REQUEST
+        size = 300 if case["thr"] == "above" else [MAX_REQUEST + 200, 6000][variant % 2]
+    else:
+        size = [900, 4000][variant % 2]
+    flavour = {"warm": 0, "token": False}
+    if kind == "collector" and case["thr"] != "zero":
+        flavour = [{"warm": 0, "token": False}, {"warm": 1, "token": False},
+                   {"warm": 1, "token": level == "http"}][variant % 3]
+
+    # ---- inline twin
+    SEEN.clear()
+    inline_logs: list = []
+    with legs.connect(level, None, inline_logs.append) as p:
+        ref = _call(p, dict(case, thr="above"), size if not uploaded else 300, seed, flavour)
+    ref_seen = list(SEEN)
+    if uploaded:        # the twin of an uploaded request is the same call with a payload that fits inline ...
+        ref, ref_seen = None, None      # ... so only the implementation's view is compared (below)
+
+    # ---- the externalised call
+    if to_server:
+        cfg = ServerExternalConfig(storage=st, externalize_threshold_bytes=10**9, fetch_config=world.fetch_cfgs[variant % 2],
+                                   retry_delay_seconds=0.0)
+    else:
+        psize = _psize(case, size, seed)
+        thr = {"zero": 0, "at": psize, "above": psize + 1}[case["thr"]]
+        comp = None if case["comp"] == "none" else Compression(algorithm=case["comp"])
+        cfg = ServerExternalConfig(storage=st, externalize_threshold_bytes=thr, compression=comp,
+                                   fetch_config=world.fetch_cfgs[variant % 2], retry_delay_seconds=0.0)
+    n_before = len(st.uploads)
+    effective = dict(case)
+    state = {"new_raw": None, "orig_raw": None}
+
+    def hook(oid: str) -> None:
+        stored, enc = st.objects[oid]
+        state["orig_raw"] = _decode(stored, enc)
+        new, new_raw = tamper(stored, enc, cor, variant, rng)
+        state["new_raw"] = new_raw
+        if cor in ("flip", "trunc") and new_raw is not None and new_raw == state["orig_raw"]:
+            effective["cor"] = "none"
+        st.objects[oid][0] = new
+        if case["flaky"]:
+            st.flaky.add(oid)
+
+    st.on_upload = hook
+    st.flaky_served = 0
+    pointer = None
+    if kind == "xinput" and case["thr"] != "above":     # the caller hands over a pointer it produced itself
+        payload = random.Random(seed).randbytes(size)
+        data = pa.RecordBatch.from_arrays([pa.array([payload], pa.binary()), pa.array([seed], pa.int64())], schema=IN)
+        raw = _build(IN, [(data, None)])
+        url = st.upload(raw, IN)
+        sha = {"kept": hashlib.sha256(raw).hexdigest(), "stripped": None,
+               "forged": hashlib.sha256(state["new_raw"] or b"").hexdigest()}[psha]
+        pointer = make_external_location_batch(IN, url, sha)
+    SEEN.clear()
+    got_logs: list = []
+    err, got = None, None
+    try:
+        with legs.connect(level, cfg, got_logs.append) as p:
+            got = _call(p, case, size, seed, flavour, pointer)
+    except Exception as exc:  # noqa: BLE001
+        err = exc
+    finally:
+        st.on_upload = None
+        st.flaky.clear()
+    seen = list(SEEN)
+    ups = st.uploads[n_before:]
+    if len(ups) > 1:
+        raise MachineryError(f"end-to-end case produced {len(ups)} uploads: {case} {level}")
+    log: list[dict] = [{"e": "route", "r": "external" if ups else "inline"}]
+    if ups:
+        log.append({"e": "upload", "enc": ups[0][1] or "none"})
+        log.append({"e": "tamper", "cor": effective["cor"], "psha": psha if kind == "xinput" else "kept"})
+        log += [{"e": "retry"}] * st.flaky_served
+    log += [{"e": "log", "forged": FORGED in m.message} for m in got_logs]
+    if to_server:
+        # application code = the method body / exchange step: was it handed the payload, and the right one?
+        payload = random.Random(seed).randbytes(size)
+        want = {"request": [("put", payload, seed)], "initreq": [("feed", payload, seed)],
+                "xupload": [("ex", {"v": [payload], "k": [seed]})], "xinput": [("ex", {"v": [payload], "k": [seed]})]}[kind]
+        if seen:
+            log.append({"e": "deliver", "what": "D" if (seen == want and err is None) else "O", "logs": len(got_logs),
+                        "logs_ok": _logs_key(got_logs) == _logs_key(inline_logs), "md_ok": True})
         else:
             log.append({"e": "reject", "why": _why(err) if err is not None else "other:no-call"})
-        return {"case": effective, "log": log}, {"level": "http", "variant": variant, "size": size,
-                                                "error": None if err is None else f"{type(err).__name__}: {str(err)[:200]}",
-                                                "requested_case": case}
+    elif err is None:
+        same_data = got == ref if kind != "collector" else [r[0] for r in got[1]] == [r[0] for r in ref[1]]
+        md_ok = True if kind != "collector" else [r[1] for r in got[1]] == [r[1] for r in ref[1]]
+        log.append({"e": "deliver", "what": "D" if same_data else "O", "logs": len(got_logs),
+                    "logs_ok": _logs_key(got_logs) == _logs_key(inline_logs), "md_ok": md_ok})
+    else:
+        log.append({"e": "reject", "why": _why(err)})
+    return {"case": effective, "log": log}, {"level": level, "variant": variant, "size": size, "flavour": flavour,
+                                            "error": None if err is None else f"{type(err).__name__}: {str(err)[:200]}",
+                                            "requested_case": case}
 
 
 # ---------------------------------------------------------------------------------------------- check
@@ -712,7 +815,8 @@ def _consts(kinds=ALL_KINDS, layouts=ALL_LAYOUTS, thr=("zero", "at", "above"), c
 
 def _sig(case: dict, m: dict) -> dict:
     return {"kind": case["kind"], "cor": case["cor"], "psha": case["psha"], "comp": case["comp"], "thr": case["thr"],
-            "layout": case["layout"], "level": m["level"]}
+            "layout": case["layout"], "md": case.get("md", False), "flaky": case.get("flaky", 0), "level": m["level"],
+            "flavour": m.get("flavour")}
 
 
 def run(ctx: Ctx) -> None:
@@ -724,8 +828,9 @@ def run(ctx: Ctx) -> None:
     quick = ctx.quick
     ctx.rule = ("one evaluation = one payload (kind, collector layout, threshold, compression, corruption, pointer "
                 "checksum kept/stripped/forged) with one concretisation (payload size, flip position / schema-change "
-                "flavour, fetch path) produced and resolved by the real functions, or one whole call through "
-                "serve_pipe; non-trivial = distinct (case, level, variant)")
+                "flavour, fetch path, first-turn / continuation / next_with_token read site) produced and resolved by the "
+                "real functions, or one whole call through serve_pipe or through the real HTTP client and WSGI app; "
+                "non-trivial = distinct (case, level, variant)")
     ctx.assume("drivers/_shims_fault/tenacity.py stands in for the uninstalled `tenacity` (trusted base)",
                "in-memory ExternalStorage / UploadUrlProvider; real fetch_url over the fake aiohttp session",
                "client-uploaded request: function level emulates the upload-URL flow up to _build_pointer_request_body; "
@@ -750,34 +855,43 @@ def run(ctx: Ctx) -> None:
     world = _World()
     ctx.extra["tenacity"] = "real package" if world.real_tenacity else "harness stand-in"
     traces, meta = [], []
-    nvar = 2 if quick else 24
-    http = _HttpLeg(world)
+    nvar = 2 if quick else 16
+    legs = _Legs(world)
+    rep = ctx.replay_record["detail"]["concrete"] if ctx.replay_record else None
     try:
         for ci, case in enumerate(cases):
-            if case["kind"] == "request" and case["comp"] != "none":
-                continue        # the client uploads request bodies without a content encoding
-            vs = range(nvar) if not ctx.replay_record else [ctx.replay_record["detail"]["concrete"]["variant"]]
-            for v in vs:
-                variant = ci * 3 + v
-                tr, m = run_case(world, case, variant, ctx.rng)
-                traces.append(tr)
-                meta.append(m)
-                ctx.case([case, "functions", v], sample={"case": case, "real_log": tr["log"], "concrete": m}
-                         if case["cor"] != "none" and v == 0 and ci % 97 == 0 else None)
-            e2e_ok = case["kind"] != "request" and case["psha"] == "kept" and (not quick or ci % 4 == 0)
-            if e2e_ok and not ctx.replay_record:
-                tr, m = run_e2e(world, case, ci, ctx.rng)
-                traces.append(tr)
-                meta.append(m)
-                ctx.case([case, "serve_pipe", 0])
-            if case["kind"] == "request" and case["psha"] == "kept" and not ctx.replay_record:
-                for v in range(1 if quick else 4):
-                    tr, m = http.run(case, ci + v, ctx.rng)
+            kind = case["kind"]
+            if kind in ("unary", "collector", "header", "request") and (rep is None or rep["level"] == "functions"):
+                for v in (range(nvar) if rep is None else [rep["variant"] - ci * 3]):
+                    variant = ci * 3 + v
+                    tr, m = run_case(world, case, variant, ctx.rng)
                     traces.append(tr)
                     meta.append(m)
-                    ctx.case([case, "http", v])
+                    ctx.case([case, "functions", v], sample={"case": case, "real_log": tr["log"], "concrete": m}
+                             if case["cor"] != "none" and v == 0 and ci % 97 == 0 else None)
+            for level in ("serve_pipe", "http"):
+                if kind not in E2E_KINDS[level] or (case["psha"] != "kept" and kind != "xinput"):
+                    continue
+                if rep is not None:
+                    if rep["level"] != level:
+                        continue
+                    vs = [rep["variant"]]
+                else:
+                    # client -> server kinds and the response-side HTTP read sites exist only end to end: every case;
+                    # the server -> client kinds over the pipe repeat the function level: sampled in quick
+                    dense = kind in ("initreq", "xinput", "xupload", "request") or level == "http"
+                    if quick and not dense and ci % 4:
+                        continue
+                    if quick and dense and kind in ("unary", "collector", "header") and ci % 2:
+                        continue
+                    vs = [ci + 7 * j for j in range(1 if quick else 3)]
+                for variant in vs:
+                    tr, m = run_e2e(world, legs, case, variant, ctx.rng, level)
+                    traces.append(tr)
+                    meta.append(m)
+                    ctx.case([case, level, variant],
+                             sample={"case": case, "real_log": tr["log"], "concrete": m} if ci % 211 == 0 else None)
     finally:
-        http.close()
         world.close()
     verdicts = validate_traces(ctx, wd, "ExternalTrace", traces, _consts())
     for v in verdicts:
